@@ -50,7 +50,7 @@ def _tok(o):
 def _build(o):
     k = o[0]
     if k == 'N':
-        return IPNetwork((o[2], o[3]), version=o[1])
+        return common.make_net(o[1], o[2], o[3])
     if k == 'R':
         return IPRange(IPAddress(o[2], o[1]), IPAddress(o[3], o[1]))
     return common.make_glob(o[3])
